@@ -9,6 +9,8 @@ ENGINES = [
     {'name': 'E1-input-config-explorer', 'path': 'vf/core.py, vf/univ.py, vf/oracles.py',
      'serves_properties': ['C01', 'C02', 'C03', 'C04', 'C05', 'C06', 'C09', 'C10', 'C11'],
      'kind_free_text': 'explicit enumeration of every input shape/value/configuration inside stated bounds; real code run on each; compared with a reference model on every case'},
+    {'name': 'E4-sanitizer-native-enumerator', 'path': 'native/c08drv.c, vf/props/c08.py', 'serves_properties': ['C08'],
+     'kind_free_text': 'native driver enumerating its configuration universe under ASan/UBSan with exact-size buffers; abort-and-restart attribution through a breadcrumb file'},
 ]
 
 PENDING = 'check not built yet in this round (planned, see DESIGN.md section 4); not claimed until it exists and is silent on the unchanged tree'
@@ -67,6 +69,14 @@ CHECKS['C06'] = (E1, 'E1-input-config-explorer',
     '(3 length helpers); square and only_triu forms are compared entry by entry; distance_array_index is checked for all a != b.',
     'Trusted: vf/oracles.py distances; the layout reference is a two-line list comprehension. Diagonal of the only_triu square form is not judged.',
     'DESIGN.md section 4 C06')
+
+E4 = 'bounded-exhaustive native enumeration of configurations under ASan/UBSan with exact-size buffers (explicit-state, no sampling)'
+CHECKS['C08'] = (E4, 'E4-sanitizer-native-enumerator',
+    'A C driver linked with the repository C sources under ASan+UBSan (-fno-sanitize-recover) enumerates every (l1,l2) <= 6x6 (8x8) x window 0..max+1 x psi {0,1,len}^4 x option set x inner distance x ndim 1..3 x value pattern for '
+    'dtw_distance*, dtw_warping_paths* (+affinity), expansion, EVERY slice, best paths (incl. every custom start, isclose, prob), warping_path, wps location/max/negativize helpers, bounds, all dtw_distances_* (serial and OpenMP) for every block of n <= 4, '
+    'and dtw_dba_* for every mask; every caller buffer is malloc\'ed at exactly the documented size; built once as shipped (NDEBUG) and once with asserts. A second pass drives 20 Cython wrapper calls per configuration on an ASan-built extension.',
+    'Trusted: ASan/UBSan red zones as monitor. Accesses landing in another live allocation beyond the red zone are invisible; thread schedules are those of the real libgomp (C07 explores schedules).',
+    'DESIGN.md section 4 C08')
 
 ALL = ['C%02d' % i for i in range(1, 21)]
 NOT_APPLICABLE = {p: PENDING for p in ALL if p not in CHECKS}
